@@ -2367,6 +2367,17 @@ def m_checked_arith(ctx, args, callee):
     return mk_bool_enum(Not(r.f[1]), r.f[0])
 
 
+@model(r'^<&?(u8|u16|u32|u64|usize|i8|i16|i32|i64|isize) as (Add|Sub|Mul)<&?(u8|u16|u32|u64|usize|i8|i16|i32|i64|isize)>>::(add|sub|mul)$', 'int_arith_by_ref')
+def m_int_arith_ref(ctx, args, callee):
+    """integer + - * through references (debug-profile semantics: overflow panics)"""
+    a = ctx.deref(args[0]); b = ctx.deref(args[1])
+    ty = re.search(r'<&?(\w+) as', callee).group(1)
+    op = {'add': 'Add', 'sub': 'Sub', 'mul': 'Mul'}[callee.rsplit('::', 1)[1]]
+    r = ctx.checked(op, a, b, ty)
+    ctx.obligation(Not(r.f[1]), 'attempt to %s with overflow' % op.lower())
+    return r.f[0]
+
+
 @model(r'^<Ordering as PartialEq>::(eq|ne)$|^<std::cmp::Ordering as PartialEq>::(eq|ne)$|^<(std::io::)?ErrorKind as PartialEq>::(eq|ne)$')
 def m_ordering_eq(ctx, args, callee):
     a = ctx.deref(args[0]); b = ctx.deref(args[1])
